@@ -224,7 +224,7 @@ func checkRange(r *rep.Reporter, kind, via string, size int64, full []byte, h st
 
 func runC11(c *Ctx) {
 	r := c.R
-	maxSize := r.Pick(12, 40)
+	maxSize := r.Pick(12, 64)
 	r.SetRule(fmt.Sprintf("object sizes 0..%d exhaustively x first,last,suffix in -1..size+2 in all three forms, boundary values around 2^31/2^63/2^64, whitespace, signs, multiple ranges, other units, plus a 70001-byte object with boundary and random ranges; every backend, HTTP GET and Go Backend.GetObject; distinct = (backend, via, size, header)", maxSize))
 	r.Exhaustive(true)
 	r.Set("exhaustive_scope", fmt.Sprintf("sizes 0..%d x {first-last, first-, -suffix} with values -1..size+2 on 6 backends via HTTP and Go API", maxSize))
